@@ -120,16 +120,30 @@ def gen_case(rng):
             b = [0, -rng.randint(0, 5)]
     else:
         a, b = gen_value(rng), gen_value(rng)
-        if rng.random() < 0.15:   # equal / neighbouring operands (comparisons, x - x, x // x)
+        k = rng.random()
+        if k < 0.12:   # equal operands, possibly of the other integer kind (comparisons, x - x, x // x)
             b = list(a)
             if b[0] in (0, 1) and rng.random() < 0.5:
                 b = [rng.choice([0, 1]), max(0, a[1])] if a[1] <= I32[1] else [1, a[1]]
+        elif k < 0.3:  # numerically neighbouring operands of different kinds (int vs its float conversion +- 1 ulp / +- 1)
+            if a[0] in (0, 1):
+                f = float(a[1])
+                f = rng.choice([f, f, math.nextafter(f, math.inf), math.nextafter(f, -math.inf)])
+                b = [2, f2b(f)]
+            elif a[0] == 2:
+                f = b2f(a[1])
+                if f == f and abs(f) < 2.0**65:
+                    n = int(f) + rng.choice([0, 0, 1, -1, 2])
+                    b = [0, n] if I32[0] <= n <= I32[1] and rng.random() < 0.5 else [1, min(max(n, 0), U64[1])]
+            if rng.random() < 0.5:
+                a, b = b, a
     return ("b", api, op, a, b)
 
 
 def exhaustive_small():
-    vals = [[0, v] for v in (-2**31, -3, -2, -1, 0, 1, 2, 3, 2**31 - 1)] + [[1, v] for v in (0, 1, 2, 3, 2**31, 2**63, 2**64 - 1)] + \
-           [[2, f2b(x)] for x in (0.0, -0.0, 1.0, -1.5, 0.1, float("inf"), float("nan"))] + [[3, 0], [3, 1]]
+    vals = [[0, v] for v in (-2**31, -3, -2, -1, 0, 1, 2, 3, 2**31 - 1)] + \
+           [[1, v] for v in (0, 1, 2, 3, 2**31, 2**53 + 1, 2**63, 2**64 - 1)] + \
+           [[2, f2b(x)] for x in (0.0, -0.0, 1.0, -1.5, 0.1, 2.0**53, 2.0**63, 2.0**64, float("inf"), float("nan"))] + [[3, 0], [3, 1]]
     out = [("b", 1, op, a, b) for op in range(20) for a in vals for b in vals]
     out += [("b", 0, op, a, b) for op in DIRECT_OPS for a in vals for b in vals]
     out += [("u", op, a) for op in range(4) for a in vals]
@@ -166,6 +180,15 @@ def show_res(r):
     if r[0] == -997:
         return "process died (rc %s)" % r[1]
     return "PANIC" + (": " + sx_str(r[1]) if len(r) > 1 and isinstance(r[1], list) else "")
+
+
+def show_py(p):
+    if p[0] == 1:
+        k, x = p[1]
+        return {0: "%d" % x, 2: repr(b2f(x)), 3: str(bool(x))}[k] if k != 2 else repr(b2f(x))
+    if p[0] == 2:
+        return "raises " + ["ZeroDivisionError", "TypeError", "OverflowError"][p[1]]
+    return "an integer beyond 2**128" if p[0] == 4 else "(not modelled)"
 
 
 def impl_case(c):
@@ -344,10 +367,18 @@ def e2e_one(ctx, erg, tmp, i, c, pyv):
     rc3, out3 = run_erg(ctx, erg, "run", "n = %s\nprint! n\n" % src, tmp, i)
     rt = out3.strip().splitlines()[-1].strip() if out3.strip() else ""
     res = {"program": prog, "compile_time_type": "{%s}" % shown, "python_value": v, "run_time_print": rt}
-    if 2 in err_lines:
+    # The compile-time value is the singleton type of N.  For Int/Nat/Bool it is printed exactly and must be the
+    # run-time value; for Float (printed rounded) it is decided by acceptance of `x: {V} = N`.  That a different
+    # singleton `y: {V'} = N` is rejected is only a sanity check of the observation and only used where singleton
+    # subtyping itself is exact (it compares through f64: integers beyond 2**53 are C03's business, not C04's).
+    exact_shown = str(x) if k in (0, 1) else ("True" if x else "False") if k == 3 else None
+    if exact_shown is not None and shown != exact_shown:
+        res["kind"] = "wrong"
+        res["why"] = "N = %s has the compile-time type {%s}; the run-time value is %s" % (src, shown, v)
+    elif 2 in err_lines:
         res["kind"] = "wrong"
         res["why"] = "`x: {%s} = N` is rejected although %s is the run-time value" % (v, v)
-    elif other is not None and 3 not in err_lines and (k != 2):
+    elif other is not None and 3 not in err_lines and (k == 3 or (k in (0, 1) and abs(x) < 2**52)):
         res["kind"] = "wrong"
         res["why"] = "`y: {%s} = N` is accepted as well" % other
     else:
@@ -406,7 +437,7 @@ def evaluate(ctx, cases, harnesses, model):
 
 def describe(c, e, b):
     return {"case": show_case(c), "build": b, "implementation": show_res(e["impl"][b]), "model": show_res(e["model"][b]),
-            "python (Spec.v)": e["judge"][b][1]}
+            "python (Spec.v)": show_py(e["judge"][b][1])}
 
 
 def load_corpus():
@@ -422,7 +453,7 @@ def run(ctx):
     ctx.cov["rule"] = ("(operator, operand pair) through ValueObj::try_<op> / Context::eval_bin / ValueObj::try_binary / eval_unary_val, "
                        "each under a debug and a release build; operands Int(i32), Nat(u64), Float(f64 bits), Bool drawn from a "
                        "boundary-heavy pool (0, +-1, 2^31+-1, 2^32, 2^53+-1, 2^63+-1, 2^64-1, signed zeros, inf, nan, subnormals) mixed with "
-                       "small and uniformly random values; thorough adds all pairs over a 25-value boundary set for every operator; "
+                       "small and uniformly random values; thorough adds all pairs over a 29-value boundary set for every operator; "
                        "plus programs `N = a op b` through the erg CLI. distinct = canonical (api, op, a, b); non-trivial = the "
                        "implementation folded the expression to a value (not `not evaluated`)")
     ctx.cov["trusted_base"] = ["Coq 8.16.1 kernel", "extraction (ExtrOcamlBasic only) + extract/driver.ml",
@@ -448,7 +479,7 @@ def run(ctx):
             cases.append(c)
     if ctx.thorough:
         ex = [c for c in exhaustive_small() if json.dumps(c) not in seen]
-        ctx.cov["exhaustive_small_scope"] = "all operand pairs over a 25-value boundary set for every operator and API: %d cases" % len(ex)
+        ctx.cov["exhaustive_small_scope"] = "all operand pairs over a 29-value boundary set for every operator and API: %d cases" % len(ex)
         cases += ex
     ev = evaluate(ctx, cases, harnesses, model)
 
@@ -507,7 +538,7 @@ def run(ctx):
             break
         reported += 1
         ctx.violation("failing-input",
-                      "constant evaluation of %s (%s build): %s; run time: %s" % (show_case(c), b, show_res(e["impl"][b]), e["judge"][b][1]),
+                      "constant evaluation of %s (%s build): %s; run time: %s" % (show_case(c), b, show_res(e["impl"][b]), show_py(e["judge"][b][1])),
                       case={"case": list(c), "readable": show_case(c), "build": b}, impl=show_res(e["impl"][b]),
                       model=show_res(e["model"][b]), judge={"verdict": e["judge"][b][0], "python_value": e["judge"][b][1]})
     for c, pv, r in e2e_bad[:3 - min(reported, 3)]:
@@ -554,5 +585,5 @@ def replay(ctx, path):
         print(json.dumps(describe(c, e, b)), "verdict:", e["judge"][b][0])
         if e["judge"][b][0] == 0:
             ctx.violation("failing-input", "constant evaluation of %s (%s build): %s; run time: %s" % (
-                show_case(c), b, show_res(e["impl"][b]), e["judge"][b][1]), case=case, impl=show_res(e["impl"][b]),
+                show_case(c), b, show_res(e["impl"][b]), show_py(e["judge"][b][1])), case=case, impl=show_res(e["impl"][b]),
                 model=show_res(e["model"][b]), judge={"verdict": 0, "python_value": e["judge"][b][1]})
